@@ -137,6 +137,9 @@ pub fn emit_case<P: KS>(out: &mut Out, seq: &[u8], k: usize, score: &dyn Fn(&P) 
     let huge = seq.len() > 10000 && r.as_ref().map(|v| v.len() > 64).unwrap_or(false);
     if let (Some(ivs), false) = (ivs, huge) {
         out.case(chk_op, l(vec![dna(seq), nu(k), nu(p), l(scores), ivs]), n(1u8));
+    } else if r.is_none() && p <= k && k <= seq.len() {
+        // a panic inside the guards p <= k <= |seq| (k = p included): C07_scan_spec / C07_no_inner_panic say there is none
+        out.case("s.no_panic", l(vec![nu(k), nu(p), nu(seq.len())]), V::Bot);
     }
     out.nt = false;
 }
